@@ -38,6 +38,9 @@ HISTORIES = {
     "comment_in_args": ("o.h", "#ifndef O_H\n# define O_H\n\nint\tfoo(int /* n */ a);\n\n#endif\n"),
     "if_with_function_like_macro": ("p.c", "#if VERSION_AT_LEAST(2, 7)\n# define B 1\n#elif OTHER(1)\n# define B 2\n#endif\n"),
     "lexer_notices": ("q.c", "int\tmain(void)\n{\n\tchar\tc;\n\n\tc = '\\q';\n\treturn (c);\n}\n"),
+    # a copied header that kept the guard of the original: the same guard symbol under two file names
+    "guard_list_h_in_list_h": ("list.h", "#ifndef LIST_H\n# define LIST_H\n\nint\tfoo(void);\n\n#endif\n"),
+    "guard_list_h_in_queue_h": ("queue.h", "#ifndef LIST_H\n# define LIST_H\n\nint\tfoo(void);\n\n#endif\n"),
     "globals_protos": ("h.c", "static int\tg_a = 1;\nstatic char\t*g_b;\n\nint\t\tfoo(int a);\nint\t\tbar(void);\n"),
 }
 PROBES = {
@@ -55,6 +58,8 @@ PROBES = {
     "ifdef_of_other_files_macro": ("x.c", "#ifdef A\n# define B 2\n#else\n# define B 3\n#endif\n\nint\tmain(void)\n{\n\treturn (B);\n}\n"),
     "comment_between_type_and_name": ("y.c", "int\tfn(int /* n */ a, char * /* s */ b)\n{\n\treturn (a + b[0]);\n}\n"),
     "nested_parentheses_200": ("z.c", "int\tfn(int a)\n{\n\treturn (" + "(" * 200 + "a" + ")" * 200 + ");\n}\n"),
+    "guard_list_h_in_queue_h": ("queue.h", "#ifndef LIST_H\n# define LIST_H\n\nint\tbar(void);\n\n#endif\n"),
+    "guard_list_h_in_list_h": ("list.h", "#ifndef LIST_H\n# define LIST_H\n\nint\tbar(void);\n\n#endif\n"),
     "six_funcs": ("u.c", "\n".join("int\tf%d(void)\n{\n\treturn (%d);\n}\n" % (i, i) for i in range(6))),
 }
 
